@@ -483,14 +483,15 @@ fn match_text(text: &str, pat: &[(usize, Pat)]) -> Result<(), (Option<usize>, St
                     Pat::F32(v) => {
                         float_token_ok(tok, v.is_nan(), v.is_infinite())
                             && match tok.parse::<f32>() {
-                                Ok(p) => (v.is_nan() && p.is_nan()) || p == *v,
+                                // the same value, the sign of a zero included (the token must identify the raw value)
+                                Ok(p) => (v.is_nan() && p.is_nan()) || (p == *v && p.to_bits() == v.to_bits()),
                                 Err(_) => false,
                             }
                     }
                     Pat::F64(v) => {
                         float_token_ok(tok, v.is_nan(), v.is_infinite())
                             && match tok.parse::<f64>() {
-                                Ok(p) => (v.is_nan() && p.is_nan()) || p == *v,
+                                Ok(p) => (v.is_nan() && p.is_nan()) || (p == *v && p.to_bits() == v.to_bits()),
                                 Err(_) => false,
                             }
                     }
@@ -1299,7 +1300,7 @@ impl Prop for C18 {
                 "value alphabet and sequence lengths as listed under coverage.families; sequences longer than the bound and values outside the alphabet are not explored".into(),
                 "the serde Serializer NUL-terminates str/char values (documented in its source): expected raw value = UTF-8 bytes + NUL; ASCII strings and raw data are passed through as given".into(),
                 "native byte order of the host (little endian) for the serde Serializer / dlt_args!; big endian only via payload_from_args".into(),
-                "float text is judged numerically (token must be a decimal number that parses back to the same f32/f64; NaN/inf by any spelling the Rust parser accepts); how bytes outside the string's character set are displayed is not judged; a blank between the bytes of a raw argument is optional but must be used uniformly (all or none) within the argument".into(),
+                "float text is judged numerically (token must be a decimal number that parses back to the same f32/f64, the sign of a zero included; NaN/inf by any spelling the Rust parser accepts); how bytes outside the string's character set are displayed is not judged; a blank between the bytes of a raw argument is optional but must be used uniformly (all or none) within the argument".into(),
                 "messages are built as DltMessage structs (verbose, noar = number of arguments); header parsing is C01/C02".into(),
             ],
             budget_s: (90, 1200),
